@@ -64,6 +64,26 @@ func (c *panicClient) PreCall(e *Engine, st *State, call *ast.CallExpr, _ *types
 	return nil
 }
 
+// PreAssign: a store into a map panics when the map is nil.
+func (c *panicClient) PreAssign(e *Engine, st *State, lhs, rhs []ast.Expr, _ ast.Stmt) *State {
+	for _, l := range lhs {
+		ix, ok := ast.Unparen(l).(*ast.IndexExpr)
+		if !ok {
+			continue
+		}
+		if _, isMap := e.Info.TypeOf(ix.X).Underlying().(*types.Map); !isMap {
+			continue
+		}
+		key := fmt.Sprintf("%s map store %s", c.fn, exprStr(ix))
+		ok2 := e.NonNil(st, ix.X)
+		e.Site("C12/panic", key, ix, ok2, "the map is known to be allocated (make / literal) on every path")
+		if !ok2 {
+			e.Site("C12/panic", key, ix, false, "a store into a map that is not known to be non-nil on this path: assignment to an entry of a nil map panics")
+		}
+	}
+	return nil
+}
+
 func (c *panicClient) Visit(e *Engine, st *State, n ast.Node) *State {
 	info := e.Info
 	switch x := n.(type) {
@@ -367,6 +387,7 @@ func ruleC12Panic(p *Program, r *Run) {
 			ast.Inspect(fd.Body, func(n ast.Node) bool {
 				switch x := n.(type) {
 				case *ast.IndexExpr, *ast.SliceExpr:
+					_ = x
 					has = true
 				case *ast.CallExpr:
 					if IsBuiltinCall(pkg.TypesInfo, x, "panic") {
